@@ -72,26 +72,67 @@ class FakeTime(object):
         pass
 
 
+class StubLimitation(BaseException):
+    """The code under test used the store in a way FakeSession does not model.  Deliberately not an
+    Exception: it must never be mistaken for behaviour of the code under test (the worker reports
+    it as a machinery error, exit 3, never as a verdict)."""
+
+
+def _rows_of(session, ent):
+    """All persistent instances of mapped class ``ent`` reachable from the session's objects."""
+    out = []
+    for o in session.objs:
+        if isinstance(o, ent):
+            out.append(o)
+    if out or issubclass(ent, pobjects.ManagedObject):
+        return out
+    for o in session.objs:
+        for rel in ("object_groups", "app_specific_info", "_names"):
+            for r in list(getattr(o, rel, []) or []):
+                if isinstance(r, ent) and not any(r is x for x in out):
+                    out.append(r)
+    return out
+
+
 class FakeQuery(object):
     def __init__(self, session, entity):
         self.s = session
         self.ent = entity
         self.uid = None
         self.filtered = False
+        self.key = None
 
     def filter(self, expr):
         # `column == None` renders as `uid IS NULL` (right side is a Null() element): matches no row
+        if self.filtered:
+            raise StubLimitation("FakeQuery: more than one filter()")
+        try:
+            self.key = expr.left.key
+        except Exception:
+            raise StubLimitation("FakeQuery.filter: unsupported expression %r" % (expr,))
         self.uid = getattr(expr.right, "value", None)
         self.filtered = True
         return self
 
     def _match(self):
+        ent = self.ent if isinstance(self.ent, type) else pobjects.ManagedObject
         if not self.filtered:
-            return list(self.s.objs)
-        # SQLite INTEGER-affinity comparison of the key with a text identifier
+            return _rows_of(self.s, ent)
         if self.uid is None:
             return []
-        return [o for o in self.s.objs if str(o.unique_identifier) == str(self.uid)]
+        if self.key in ("uid", "unique_identifier"):
+            # SQLite INTEGER-affinity comparison of the key with a text identifier
+            return [o for o in _rows_of(self.s, ent) if str(o.unique_identifier) == str(self.uid)]
+        attr = self.key
+        out = []
+        for r in _rows_of(self.s, ent):
+            if not hasattr(r, attr) and hasattr(r, attr.lstrip("_")):
+                attr = attr.lstrip("_")
+            if not hasattr(r, attr):
+                raise StubLimitation("FakeQuery: %s has no column %s" % (type(r).__name__, self.key))
+            if getattr(r, attr) == self.uid:
+                out.append(r)
+        return out
 
     def one(self):
         m = self._match()
@@ -103,8 +144,17 @@ class FakeQuery(object):
             return m[0]
         return (m[0]._object_type,)          # column query -> row tuple
 
+    def first(self):
+        m = self._match()
+        if not m:
+            return None
+        return m[0] if isinstance(self.ent, type) else (m[0]._object_type,)
+
     def all(self):
         return self._match()
+
+    def count(self):
+        return len(self._match())
 
     def delete(self):
         n = 0
@@ -114,6 +164,9 @@ class FakeQuery(object):
             self.s.pending = True
             n += 1
         return n
+
+    def __getattr__(self, name):
+        raise StubLimitation("FakeQuery has no model of Query.%s" % name)
 
 
 def _apply_column_defaults(o):
@@ -176,6 +229,14 @@ class FakeSession(object):
 
     def close(self):
         pass
+
+    def flush(self):
+        pass
+
+    def __getattr__(self, name):
+        if name.startswith("__"):
+            raise AttributeError(name)
+        raise StubLimitation("FakeSession has no model of Session.%s" % name)
 
 
 class TxSession(FakeSession):
